@@ -18,6 +18,18 @@ CLAIMED = {
         note="Trusted: TLC, the transcription of Python list semantics in TraitList.tla (cross-checked on every case "
              "against the builtin list), the concretisation of abstract items (small ints / digit strings).",
         design="4/C05"),
+    "C02": dict(
+        technique=TLA + "Notify.tla models the C pre-filter and each mechanism's own filter as the code is structured; "
+                  "TLC checks the property (exactly once per change, truthful old/new, same sequence, silence on "
+                  "rejection/default read, Event traits) on all histories to the bound; every state of the dump and seeded "
+                  "histories are executed on real objects with all four handler mechanisms and judged by TLC",
+        text="Model checking over 3 comparison modes x trait/Event x typed/untyped x 11 value tokens (identical, "
+             "equal-not-identical, two NaN objects, raising ==, numpy arrays, None, default, rejected) to depth 3/5; every "
+             "case executed under 7 sets of raising handlers; recorded old/new per mechanism judged by TLC both against "
+             "the code-shaped filters and against the property's IsChange directly.",
+        note="Trusted: TLC; the token/equality structure of Notify.tla matches the concrete values; default "
+             "exception-handler configuration; dispatch='same' only (no other threads).",
+        design="4/C02"),
     "C04": dict(
         technique=TLA + "TLC checks the C04 invariants (elements valid, length in bounds, nested) on histories of "
                   "ContainerTraits.tla and enumerates every one-step case; cases are executed on real HasTraits objects "
